@@ -118,9 +118,12 @@ func c19Body(r *simcore.Run) {
 				d := &c19Doc{ID: fmt.Sprintf("d%d", seq), HasN: r.Pct(80), N: float64(r.Intn(5)), S: []string{"alpha", "beta", "gamma", "Ünï"}[r.Intn(4)], U: float64(seq), Inner: []string{"x", "y"}[r.Intn(2)], Revs: 1}
 				if r.Pct(15) && len(usedU) > 0 {
 					// a duplicate value for the unique field: must be refused by the indexed collection
+					// (the smallest used value: ranging over the map would pick at random)
+					first := true
 					for u := range usedU {
-						d.U = u
-						break
+						if first || u < d.U {
+							d.U, first = u, false
+						}
 					}
 					_, _, err := eng.InsertDocument(ctx, "admin", "indexed", mk(d))
 					r.Logf("insert duplicate u=%v -> %v", d.U, err)
@@ -200,7 +203,7 @@ func c19Body(r *simcore.Run) {
 	for _, t := range tasks {
 		t.Join()
 	}
-	if r.Sched.MaxLive("indexer") > 12 {
+	if r.Sched.MaxSameName("indexer") > 1 {
 		return // index restarted by compaction while indexing (C04 finding)
 	}
 	verify := func(what string) int {
@@ -317,7 +320,13 @@ func c19Body(r *simcore.Run) {
 			}
 		}
 		// audit trail: every revision in order
-		for key, d := range model {
+		auditKeys := make([]string, 0, len(model))
+		for k := range model {
+			auditKeys = append(auditKeys, k)
+		}
+		sort.Strings(auditKeys)
+		for _, key := range auditKeys {
+			d := model[key]
 			for _, coll := range []string{"indexed", "plain"} {
 				id, err := document.NewDocumentIDFromHexEncodedString(ids[coll][key])
 				if err != nil {
